@@ -49,14 +49,16 @@ impl<const N: usize, Value> IndexMap<N, Value> {
 
     #[inline(always)]
     pub(crate) fn iter(&self) -> impl Iterator<Item = &(usize, Value)> {
-        self.values.iter()
-            .filter(|(i, _)| *unsafe {self.index.get_unchecked(*i)} != Self::NULL)
+        self.values.iter().enumerate()
+            .filter(|(at, (i, _))| *unsafe {self.index.get_unchecked(*i)} as usize == *at)
+            .map(|(_, entry)| entry)
     }
 
     #[inline(always)]
     pub(crate) fn into_iter(self) -> impl Iterator<Item = (usize, Value)> {
-        self.values.into_iter()
-            .filter(move |(i, _)| *unsafe {self.index.get_unchecked(*i)} != Self::NULL)
+        self.values.into_iter().enumerate()
+            .filter(move |(at, (i, _))| *unsafe {self.index.get_unchecked(*i)} as usize == *at)
+            .map(|(_, entry)| entry)
     }
 }
 
